@@ -598,6 +598,12 @@ pub fn run_session(o: &mut Outcome, exp: Exp, dir: Dir, wl: &Workload, sc: &Valu
                     let model_len = sc["frames"].as_array().and_then(|a| a.iter().map(|f| json_to_bytes(f).len()).max()).unwrap_or(0);
                     if e == "InvalidInput" && model_len > 0xF000 {
                         o.count("writer_refused_too_large_not_judged", 1);
+                        if w.data.len() == before {
+                            // a clean refusal: nothing was written, so the caller may go on with the next message and the
+                            // session (cipher states included) must be as if the refused message had never been offered
+                            o.count("probe_session_continues_after_refused_message", 1);
+                            continue;
+                        }
                     } else {
                         o.violate("writer_error", format!("write-error:{}:{}", e, wl.names[i]), format!("writer returned error {} on an in-memory pipe", e));
                     }
